@@ -5,7 +5,10 @@ behind `str::from_utf8(&b)` succeeding AND `Encoding::detect(&b)` saying UTF-8 -
 of the stand-in `serde_yaml::Deserializer::from_str` (F2); every document of the slice iterator is offered exactly once and
 Ok(()) is returned only after the iterator reported its end; `Input` and `Encoding` are extracted verbatim,
 `Encoding::detect` is a stand-in with the table as an uninterpreted spec (its equality with the YAML 1.2.2 table is the Kani unit U-ENC-D);
-`Cow::deref` carries an assumed spec (a pure function of the Cow)).
+`Cow::deref` carries an assumed spec (a pure function of the Cow)); and input_matches (the detection verdict is `im_mapping` of the
+chunker's answer: Ok(is_collection) for a first document, Ok(false) for an InvalidData error or an empty stream, Err for any
+other error -- checked against the PROVED contract of Chunker::next; `Ref` is extracted verbatim, `Ref::prefix`, `Encoder::new`,
+`CaptureReader`, `io::Error::kind` and `ErrorKind == ErrorKind` are stand-ins / assumed specs).
 
 The libyaml binding (src/yaml/chunker/parser.rs: Parser, Event) is NOT extracted: it is represented by opaque
 stand-in types whose methods carry an ASSUMED contract -- an executable-free statement of what libyaml is
@@ -19,6 +22,7 @@ What the extraction changes (markers in the generated file, undone by the token 
   * `Self::Item` in the signature of Chunker::next is replaced by the `type Item = ..;` of the same impl (read from the source);
   * `io::Error::new(..)` in Chunker::next is redirected to the stand-in `io_error_new` (assumed: result has the given kind);
   * `.map(Ok)` in Chunker::next is eta-expanded to `.map(|v| Ok(v))` (Verus rejects a constructor used as a function value);
+  * (T13) the tail `match chunk {..}` of yaml::input_matches is bound to a name so that a ghost assertion can follow it;
   * `pub(super)` dropped from `enum DocumentKind`; derive / repr attributes of yaml_event_type_t dropped.
 """
 from . import std_specs as S
@@ -77,6 +81,8 @@ pub fn io_error_new<E>(kind: std::io::ErrorKind, error: E) -> (r: std::io::Error
 { unimplemented!() }
 #[verifier::external_type_specification]
 pub struct ExErrorKind(std::io::ErrorKind);
+pub assume_specification [<std::io::ErrorKind as PartialEq>::eq] (a: &std::io::ErrorKind, b: &std::io::ErrorKind) -> (r: bool) ensures r == (*a == *b);
+pub assume_specification [std::io::Error::kind] (e: &std::io::Error) -> (k: std::io::ErrorKind) ensures k == err_kind(e);
 
 // ---- crate-level stand-ins used by yaml::transcode_reader (ASSUMED contracts) ----
 #[verifier::external_body]
@@ -406,6 +412,21 @@ pub mod input {
     use std::io::Read;
     #[verifier::external_body]
     pub struct Handle<'i> { _h: std::marker::PhantomData<&'i [u8]> }
+    // the capture reader of src/input.rs (contracts proved in U-CAP-V); here only a source of bytes
+    #[verifier::external_body]
+    #[verifier::reject_recursive_types(R)]
+    pub struct CaptureReader<R> { _r: std::marker::PhantomData<R> }
+    #[verifier::external]
+    impl<R: Read> Read for CaptureReader<R> { fn read(&mut self, buf: &mut [u8]) -> std::io::Result<usize> { unimplemented!() } }
+'''
+REF_TAIL = r'''
+    impl<'i, 'h> Ref<'i, 'h> where 'i: 'h {
+        // stand-in for Ref::prefix (proved in U-CAP-V): a slice hands back itself; a reader's prefix is some bytes or its error
+        #[verifier::external_body]
+        pub fn prefix(&mut self, size_hint: usize) -> (r: std::io::Result<&[u8]>)
+            ensures *old(self) matches Ref::Slice(b) ==> (r matches Ok(p) && p@ == b@),
+        { unimplemented!() }
+    }
 '''
 INPUT_TAIL = r'''
     pub uninterp spec fn input_of<'i>(h: Handle<'i>) -> Input<'i>;
@@ -418,7 +439,7 @@ INPUT_TAIL = r'''
         fn from(handle: Handle<'i>) -> (r: Self) ensures r == input_of(handle), { unimplemented!() }
     }
 }
-use input::Input;
+use input::{Input, Ref};
 '''
 ENCODING_STANDIN = r'''
 // what the YAML 1.2.2 section 5.2 table says for a prefix (Encoding::detect == this table: Kani unit U-ENC-D, complete)
@@ -426,6 +447,7 @@ pub uninterp spec fn spec_detect(prefix: Seq<u8>) -> Encoding;
 impl Encoding {
     #[verifier::external_body]
     pub fn detect(prefix: &[u8]) -> (r: Encoding) ensures r == spec_detect(prefix@), { unimplemented!() }
+    pub const DETECT_LEN: usize = 4;
 }
 // F2 (C07 / C02): a slice may go to serde_yaml directly only if it is the UTF-8 encoding of the stream
 #[verifier::external_body]
@@ -446,9 +468,22 @@ pub mod yaml_rs {
     #[verifier::external_body]
     #[verifier::reject_recursive_types(R)]
     pub struct Encoder<R> { _r: std::marker::PhantomData<R> }
+    #[verifier::external]
+    impl<R: BufRead> Read for Encoder<R> { fn read(&mut self, buf: &mut [u8]) -> io::Result<usize> { unimplemented!() } }
     impl<R: BufRead> Encoder<R> {
         #[verifier::external_body]
         pub fn from_reader(reader: R) -> io::Result<EncodedReader<R>> { unimplemented!() }
+        // stand-in for Encoder::new (mapping Encoding -> decoder: Kani encoder_new_maps_every_encoding)
+        #[verifier::external_body]
+        pub fn new(reader: R, from: Encoding) -> Self { unimplemented!() }
+    }
+    // C10 (YAML verdict): what input_matches must answer for what the chunker said about the first document
+    pub open spec fn im_mapping(c: Option<io::Result<Document>>, r: io::Result<bool>) -> bool {
+        match c {
+            Some(Ok(doc)) => r matches Ok(b) && b == (doc.kind_v() == 2),
+            Some(Err(e)) => if err_kind(&e) == io::ErrorKind::InvalidData { r matches Ok(b) && !b } else { r matches Err(e2) && e2 == e },
+            None => r matches Ok(b) && !b,
+        }
     }
     // the bytes of the k-th document of the chunker's event history, cut out of the stream it has read
     spec fn doc_bytes<R: Read>(c: &Chunker<R>, k: int) -> Seq<u8> {
@@ -474,6 +509,7 @@ TC_FOR = (r'let ghost n0 = out_log(&output).len(); let ghost mut all_offered = f
           r'{ let \1 = match verus_iter.next() { None => { proof { all_offered = true; } break }, Some(verus_item) => verus_item };')
 # C03 / C04 (slice path): Ok(()) only after the document iterator reported the end, with one offer per document it yielded
 TC_END = '''proof { assert(all_offered); }'''
+IM_TAIL = (r'let ghost g_chunk = chunk; let verus_r = match chunk {\1}; proof { assert(im_mapping(g_chunk, verus_r)); } verus_r }')
 SRC = 'repo:src/yaml/chunker.rs'
 CRI = r'\bimpl\s*<R>\s+ChunkReader\s*<R>'
 CRR = r'\bimpl\s*<R>\s+Read\s+for\s+ChunkReader\s*<R>'
@@ -517,6 +553,8 @@ ITEMS = [
     # ---- src/yaml.rs: the reader loop that feeds the chunks to the output (in a child module so that it sees Chunker) ----
     dict(raw=INPUT_HEAD),
     dict(src='repo:src/input.rs', kind='enum', name='Input', drop_vis=True, wrap=('    pub', '')),
+    dict(src='repo:src/input.rs', kind='enum', name='Ref', drop_vis=True, wrap=('    pub', '')),
+    dict(raw=REF_TAIL),
     dict(raw=INPUT_TAIL),
     dict(src='repo:src/yaml/encoding.rs', kind='enum', name='Encoding', drop_vis=True, wrap=('pub', '')),
     dict(raw=ENCODING_STANDIN),
@@ -527,6 +565,10 @@ ITEMS = [
                        rewrites=[dict(find=r'for\s+(\w+)\s+in\s+([^{]+?)\s*\{', to=TR_FOR, expand=True)],
                        inserts=[dict(before=r'Ok\(\(\)\)\s*\}\s*$', text=TR_END)],
                        inserts_all=[dict(after=r'output\s*\.\s*transcode_from\s*\([^;]*;', text=TR_AFTER_OFFER)])),
+    # yaml::input_matches: the verdict is a function of the chunker's FIRST answer only (T13: the tail match is given a name)
+    dict(src='repo:src/yaml.rs', kind='fn', name='input_matches',
+         contract=dict(ret='r', spec='ensures true,',
+                       rewrites=[dict(find=r'(?s)match\s+chunk\s*\{(.*)\}\s*\}\s*$', to=IM_TAIL, expand=True, required=True)])),
     # yaml::transcode: the slice fast path (F2 guard as the precondition of from_str; every document of the slice offered once)
     dict(src='repo:src/yaml.rs', kind='fn', name='transcode',
          contract=dict(ret='r', spec='ensures true,', attrs=['#[verifier::exec_allows_no_decreases_clause]'],
